@@ -333,7 +333,7 @@ def write_evidence(mod, prop, args, base_seed, seeds, results, good, harness, ne
                          "read_errors_delivered": agg.get("f8_delivered", 0), "lock_blocks": agg.get("lock_blocks", 0)},
         "distinct_interleavings": len(inter),
         "distinct_task_orders": len(orders),
-        "probes": {k: agg.get(k, 0) for k in ("cache_get_overlap", "nested_gets", "twin_ops", "iso_ops", "padded", "sites", "hot_events", "storage_reads", "history_steps", "splits_decoded", "binned_loaders", "layouts", "particles")},
+        "probes": {k: agg.get(k, 0) for k in ("cache_get_overlap", "nested_gets", "twin_ops", "iso_ops", "padded", "sites", "hot_events", "storage_reads", "history_steps", "splits_decoded", "binned_loaders", "layouts", "particles", "arrays_watched", "held_array_changed", "stalls", "serialised_tasks")},
         "operation_mix": dict(ops),
         "components": {
             "real": ["acryo (all modules, from the working tree)", "dask graph construction/optimisation (delayed, dask.array, rechunk, map_overlap)",
